@@ -145,6 +145,61 @@ pub fn decode(m: &[u8]) -> Result<DMsg, String> {
     Ok(DMsg { id: be(m, 0), b2: m[2], b3: m[3], questions, secs })
 }
 
+/// C02 "every name is well formed" read strictly (RFC 1035 4.1.4: a pointer replaces the tail of
+/// a name by "a prior occurance of the same name"; = the first clause of C13): walks a message
+/// that `decode` accepts and examines every name field - QNAME, owners, the names inside RDATA
+/// of the known layouts incl. SRV / Chaosnet A / the TSIG algorithm name.  The stored part of a
+/// name is literal labels, then the root label or ONE pointer; every pointer must point strictly
+/// backwards to the first octet of a label (or root label) of a name stored earlier in the
+/// message - never into the header, the fixed fields or the middle of a label.
+pub fn pointer_check(m: &[u8]) -> Result<(), String> {
+    fn chunk(m: &[u8], mut pos: usize, label_starts: &mut [bool], what: &str) -> Result<usize, String> {
+        let mut mine = vec![];
+        let end = loop {
+            let o = *m.get(pos).ok_or(format!("{what}: runs past the end"))? as usize;
+            if o >= 0xc0 {
+                let target = (o & 0x3f) << 8 | *m.get(pos + 1).ok_or(format!("{what}: cut-off pointer"))? as usize;
+                if target >= pos || !label_starts[target] {
+                    return Err(format!("compression pointer at offset {pos} ({what}) has the target {target}, which is not the first octet of a label of a name written earlier"));
+                }
+                break pos + 2;
+            }
+            if o > 63 { return Err(format!("{what}: label type {o:#04x} at offset {pos}")); }
+            mine.push(pos);
+            if o == 0 { break pos + 1; }
+            pos += 1 + o;
+        };
+        for s in mine { label_starts[s] = true; }
+        Ok(end)
+    }
+    if m.len() < 12 { return Err("no header".into()); }
+    let mut label_starts = vec![false; m.len()];
+    let mut pos = 12;
+    for i in 0..be(m, 4) { pos = chunk(m, pos, &mut label_starts, &format!("QNAME of question {i}"))? + 4; }
+    for i in 0..be(m, 6) as usize + be(m, 8) as usize + be(m, 10) as usize {
+        let at = chunk(m, pos, &mut label_starts, &format!("owner of record {i}"))?;
+        if at + 10 > m.len() { return Err(format!("record {i}: fixed fields run past the end")); }
+        let (rtype, class, rdlength) = (be(m, at), be(m, at + 2), be(m, at + 8) as usize);
+        let (mut p, end) = (at + 10, at + 10 + rdlength);
+        if end > m.len() { return Err(format!("record {i}: RDATA runs past the end")); }
+        match layout(class, rtype) {
+            Some(fields) if fields.contains(&Field::Name) => {
+                for f in fields {
+                    match *f {
+                        Field::Fixed(n) => p += n,
+                        Field::Name => p = chunk(&m[..end], p, &mut label_starts, &format!("name in the RDATA of record {i}, type {rtype}"))?,
+                        _ => unreachable!(),
+                    }
+                }
+            }
+            Some(fields) if fields == [Field::Tsig] => { chunk(&m[..end], p, &mut label_starts, "algorithm name of the TSIG record")?; }
+            _ => {}
+        }
+        pos = end;
+    }
+    Ok(())
+}
+
 // ------------------------------------------------------------------------------ RFC 8945 reference
 
 #[derive(Clone, Copy, Debug, PartialEq)]
